@@ -1,7 +1,7 @@
 #!/bin/bash
 # run every check of MANIFEST.json at a tier; print one line per check
 tier=${1:-quick}
-cd /verif
+cd "$(dirname "$0")/.."
 for i in 01 02 03 04 05 06 07 08 09 10 11 12 13 14 15 16 17 18 19; do
   s=$(date +%s)
   out=$(timeout 7200 /venv/bin/python -m bbverif check C$i --tier $tier 2>&1); rc=$?
